@@ -2,6 +2,7 @@
 C13 — Block option values encode and decode per RFC 7959 §2.2.
 Model: `CoapLite.Model.BlockValue` (tied to the code by domain BV).
 -/
+import CoapLite.Lemmas.Shape.Api
 import CoapLite.Model.BlockValue
 import CoapLite.Lemmas.Uint
 import CoapLite.Lemmas.Shape.BlockValue
@@ -191,5 +192,12 @@ theorem state_shape_matches_source :
     Shapes.globalState = [] ∧
     Shapes.blockValue = [("more", "bool"), ("num", "u16"), ("size_exponent", "u8")] :=
   ⟨ShapeTie.no_global_state, ShapeTie.blockValue⟩
+
+/-- the public entry points of the modelled source files – re-read from /repo/src on every run – are
+exactly the ones the model was written against (`Lemmas/Shape/Api.lean`): a new public way to change the
+state this property is about, or a receiver that became `&mut self`, breaks this theorem -/
+theorem api_surface_matches_source :
+    Shapes.apiBlockValue = ShapeTie.expectedApiBlockValue :=
+  ShapeTie.apiBlockValue
 
 end CoapLite.C13
